@@ -6,6 +6,10 @@ B = json.load(open("/root/.vp/BASELINE.json"))
 # optional: --repo DIR runs the same command against a scratch worktree
 if len(sys.argv) > 2 and sys.argv[1] == "--repo":
     B["cmd"] = B["cmd"].replace("/repo/", sys.argv[2].rstrip("/") + "/")
+# git-ignored residue of earlier test runs (gateway tests persist data/ and settings/ next to the package and
+# fail on a stale copy) is removed first: a fresh checkout has none
+_repo = sys.argv[2].rstrip("/") if len(sys.argv) > 2 and sys.argv[1] == "--repo" else "/repo"
+subprocess.run(["git", "-C", _repo, "clean", "-fdXq", "app", "sdk"], stdout=subprocess.DEVNULL, stderr=subprocess.DEVNULL)
 p = subprocess.run(["bash", "-c", B["cmd"]], stdout=subprocess.PIPE, stderr=subprocess.DEVNULL, text=True, errors="replace")
 res = {}
 for line in p.stdout.splitlines():
